@@ -439,8 +439,8 @@ func checkEncoderShape(p *Prog, r *Report, kp func(string, string) string, fn *s
 	}
 	var pass *sizePass
 	if ms, ok := buf.(*ssa.MakeSlice); ok && !okSize {
-		if ex, ok := ms.Len.(*ssa.Extract); ok && ex.Index == 0 {
-			if c, ok := ex.Tuple.(*ssa.Call); ok && len(c.Call.Args) == 1 {
+		{
+			if c := sizeCallOf(ms.Len); c != nil && len(c.Call.Args) == 1 {
 				// the size comes from the first pass over the very slice whose elements are encoded
 				if u, ok := val.(*ssa.UnOp); ok {
 					if ia2, ok := u.X.(*ssa.IndexAddr); ok && ia2.X == c.Call.Args[0] {
@@ -764,12 +764,8 @@ func callerBufferIsSizePass(p *Prog, fn *ssa.Function, buf *ssa.Parameter, cv *s
 			if !ok {
 				return false
 			}
-			ex, ok := ms.Len.(*ssa.Extract)
-			if !ok || ex.Index != 0 {
-				return false
-			}
-			c, ok := ex.Tuple.(*ssa.Call)
-			if !ok || len(c.Call.Args) != 1 || c.Call.Args[0] != args[vi] {
+			c := sizeCallOf(ms.Len)
+			if c == nil || len(c.Call.Args) != 1 || c.Call.Args[0] != args[vi] {
 				return false
 			}
 			sp, call := sizePassBefore(g, cs.Instr.(ssa.Instruction), args[vi])
@@ -1169,7 +1165,198 @@ func sizePassBefore(fn *ssa.Function, at ssa.Instruction, vals ssa.Value) (*size
 			}
 		}
 	}
+	// three phases: a bound-only pass (returns just the error) whose success dominates `at`, and a size-only function (returns
+	// just Σ(c + len)) over the same slice
+	var bound *sizePass
+	for _, b := range fn.Blocks {
+		for _, in := range b.Instrs {
+			c, ok := in.(*ssa.Call)
+			if !ok || c.Call.StaticCallee() == nil || len(c.Call.Args) != 1 || c.Call.Args[0] != vals || c.Referrers() == nil {
+				continue
+			}
+			bp := boundPassOf(c.Call.StaticCallee())
+			if bp == nil {
+				continue
+			}
+			for _, rf := range *c.Referrers() {
+				bo, ok := rf.(*ssa.BinOp)
+				if !ok || bo.Op != token.NEQ || !isNilConst(bo.Y) || bo.X != ssa.Value(c) {
+					continue
+				}
+				blk := bo.Block()
+				iff, ok := blk.Instrs[len(blk.Instrs)-1].(*ssa.If)
+				if !ok || iff.Cond != ssa.Value(bo) {
+					continue
+				}
+				thenRet, ok := blk.Succs[0].Instrs[len(blk.Succs[0].Instrs)-1].(*ssa.Return)
+				if !ok || len(thenRet.Results) == 0 || unspill(thenRet.Results[len(thenRet.Results)-1]) != ssa.Value(c) {
+					continue
+				}
+				if blk.Succs[1] == at.Block() || blk.Succs[1].Dominates(at.Block()) {
+					bound = bp
+				}
+			}
+		}
+	}
+	if bound != nil {
+		for _, b := range fn.Blocks {
+			for _, in := range b.Instrs {
+				c, ok := in.(*ssa.Call)
+				if !ok || c.Call.StaticCallee() == nil || len(c.Call.Args) != 1 || c.Call.Args[0] != vals {
+					continue
+				}
+				if perC, ok := sizeOnlyOf(c.Call.StaticCallee()); ok {
+					return &sizePass{Bound: bound.Bound, HasErr: true, PerC: perC}, c
+				}
+			}
+		}
+	}
 	return nil, nil
+}
+
+// sizeCallOf: v is the size a size pass computed: result #0 of a (size, error) pass or the only result of a size-only function.
+func sizeCallOf(v ssa.Value) *ssa.Call {
+	switch x := v.(type) {
+	case *ssa.Extract:
+		if x.Index == 0 {
+			c, _ := x.Tuple.(*ssa.Call)
+			return c
+		}
+	case *ssa.Call:
+		if _, isB := x.Call.Value.(*ssa.Builtin); !isB {
+			return x
+		}
+	}
+	return nil
+}
+
+// boundPassOf: fn(values) error — a loop over the parameter that returns a non-nil error as soon as len(element) exceeds a
+// constant, and nil after the loop.
+func boundPassOf(fn *ssa.Function) *sizePass {
+	if fn == nil || fn.Blocks == nil || len(fn.Params) != 1 || fn.Signature.Results().Len() != 1 || !isErrorType(fn.Signature.Results().At(0).Type()) {
+		return nil
+	}
+	prm := fn.Params[0]
+	sp := &sizePass{Bound: -1}
+	var test *ssa.BasicBlock
+	for _, b := range fn.Blocks {
+		if !inCycle(b) || len(b.Instrs) == 0 {
+			continue
+		}
+		iff, ok := b.Instrs[len(b.Instrs)-1].(*ssa.If)
+		if !ok {
+			continue
+		}
+		bo, ok := iff.Cond.(*ssa.BinOp)
+		if !ok {
+			continue
+		}
+		lc, ok := bo.X.(*ssa.Call)
+		if !ok || len(lc.Call.Args) != 1 {
+			continue
+		}
+		if bi, isB := lc.Call.Value.(*ssa.Builtin); !isB || bi.Name() != "len" {
+			continue
+		}
+		u, ok := lc.Call.Args[0].(*ssa.UnOp)
+		if !ok {
+			continue
+		}
+		ia, ok := u.X.(*ssa.IndexAddr)
+		if !ok || ia.X != ssa.Value(prm) {
+			continue
+		}
+		c, ok := bo.Y.(*ssa.Const)
+		if !ok {
+			continue
+		}
+		failT, failF := blockFails(b.Succs[0], 0), blockFails(b.Succs[1], 0)
+		switch {
+		case bo.Op == token.GTR && failT && !failF:
+			sp.Bound = c.Int64()
+		case bo.Op == token.GEQ && failT && !failF:
+			sp.Bound = c.Int64() - 1
+		case bo.Op == token.LEQ && failF && !failT:
+			sp.Bound = c.Int64()
+		case bo.Op == token.LSS && failF && !failT:
+			sp.Bound = c.Int64() - 1
+		default:
+			continue
+		}
+		sp.HasErr = true
+		test = b
+	}
+	if test == nil {
+		return nil
+	}
+	// the test runs for every element: it dominates the loop's back edges, and the loop is left early only by failing
+	var header *ssa.BasicBlock
+	for d := test; d != nil && header == nil; d = d.Idom() {
+		for _, pr := range d.Preds {
+			if d.Dominates(pr) {
+				header = d
+			}
+		}
+	}
+	if header == nil || earlyLoopExit(header) != nil {
+		return nil
+	}
+	for _, pr := range header.Preds {
+		if header.Dominates(pr) && !test.Dominates(pr) {
+			return nil
+		}
+	}
+	return sp
+}
+
+// sizeOnlyOf: fn(values) int returning 0 + Σ(c + len(element)); the per-element constant c.
+func sizeOnlyOf(fn *ssa.Function) (int64, bool) {
+	if fn == nil || fn.Blocks == nil || len(fn.Params) != 1 || fn.Signature.Results().Len() != 1 {
+		return 0, false
+	}
+	if bt, ok := fn.Signature.Results().At(0).Type().Underlying().(*types.Basic); !ok || bt.Info()&types.IsInteger == 0 {
+		return 0, false
+	}
+	rets := returnsOf(fn)
+	if len(rets) != 1 {
+		return 0, false
+	}
+	phi, ok := rets[0].Results[0].(*ssa.Phi)
+	if !ok || len(phi.Edges) != 2 {
+		return 0, false
+	}
+	perC, found := int64(0), false
+	for k, e := range phi.Edges {
+		pred := phi.Block().Preds[k]
+		if !phi.Block().Dominates(pred) {
+			if c, isC := e.(*ssa.Const); !isC || c.Int64() != 0 {
+				return 0, false
+			}
+			continue
+		}
+		d := LinOf(e).Sub(LinOf(phi))
+		if len(d.Coef) != 1 {
+			return 0, false
+		}
+		for sym, co := range d.Coef {
+			if !strings.HasPrefix(sym, "len(") || co != 1 {
+				return 0, false
+			}
+		}
+		perC, found = d.C, true
+	}
+	// every element is counted: no branch in the loop other than the loop's own test
+	if !found || earlyLoopExit(phi.Block()) != nil {
+		return 0, false
+	}
+	for _, b := range fn.Blocks {
+		if inCycle(b) && b != phi.Block() {
+			if _, isIf := b.Instrs[len(b.Instrs)-1].(*ssa.If); isIf {
+				return 0, false
+			}
+		}
+	}
+	return perC, true
 }
 
 // earlierBoundLoop: before the loop containing `at`, fn has a loop over the same slice whose body returns an error when
